@@ -61,6 +61,12 @@ def run(chk: Check) -> None:
     sub = chk.sub()
     _no_swallow(sub)
     chk.adopt(sub, None, "R09.1")
+    # every decoded (hence registered) child ends up in the collection it was read for
+    from .c02 import _facts as _c02_facts, _reader_agreement
+    schema_, pf_ = _c02_facts(chk)
+    sub = chk.sub()
+    _reader_agreement(sub, schema_, pf_, [m for m in schema_.reachable("IR")] + ["Offset"])
+    chk.adopt(sub, lambda o: ":flows-to(" in o.construct, "R09.3")
 
 
 def _lazy_auxdata(chk: Check) -> None:
